@@ -17,5 +17,5 @@ func TestC06P(t *testing.T) {
 	if err != nil {
 		t.Fatalf("VERIF-INFRA registry: %v", err)
 	}
-	r.RunC06(t, st, 20000, 400000)
+	r.RunC06(t, st, 20000, 2000000)
 }
